@@ -64,7 +64,7 @@ Inductive agg :=
   | CounterEq (nm : Z) (k n : Z)             (* counter.nm(k) == n: the function's value is the counter AFTER this click *)
   | CountIf (v nm : Z) (c : bexp).           (* @v = count.nm(c): dictionary nm counts the lines per answer of c (keys True / False), on every
                                                 line the component is evaluated on (no onmatch); v gets the count for this line's answer *)
-Inductive action := AssignN (x : Z) (e : nexp) | AssignS (x : Z) (e : sexp) | PushN (k : Z) (e : nexp) | PushS (k : Z) (e : sexp) | Pop (x k : Z)
+Inductive action := AssignN (x : Z) (e : nexp) | AssignS (x : Z) (e : sexp) | PushN (k : Z) (e : nexp) | PushS (k : Z) (e : sexp) | Pop (x k : Z) | PushD (k : Z) (e : nexp)
   | Agg (g : agg).
 Inductive comp := CB (b : bexp) | CAct (a : action) | CWhen (b : bexp) (a : action) | CAgg (g : agg).
 
@@ -293,6 +293,15 @@ Section Eval.
         (with_mx s (mkMx (update v (VI cnt) (vars m1)) (stacks m1) (dicts m1)), AND)
     end.
 
+  (** Python's == on the values a stack can hold: 3 == 3.0, "3" != 3, None == None *)
+  Definition val_eqb (a b : value) : bool :=
+    match a, b with
+    | VI x, VI y | VI x, VF y | VF x, VI y | VF x, VF y => x =? y
+    | VS x, VS y => ustr_eqb x y
+    | VNone, VNone => true
+    | _, _ => false
+    end.
+
   Definition do_action (s : cst) (l : line ustring) (a : action) : cst :=
     let m := x mx s in
     match a with
@@ -301,6 +310,10 @@ Section Eval.
     | AssignS v e => with_mx s (mkMx (update v (VS (seval s l e)) (vars m)) (stacks m) (dicts m))
     | PushN k e => with_mx s (mkMx (vars m) (update k ((match lookup k (stacks m) with Some st => st | None => [] end) ++ [nvalue s l e]) (stacks m)) (dicts m))
     | PushS k e => with_mx s (mkMx (vars m) (update k ((match lookup k (stacks m) with Some st => st | None => [] end) ++ [VS (seval s l e)]) (stacks m)) (dicts m))
+    | PushD k e =>        (* push_distinct(): nothing is pushed when the stack already holds an equal value (the stack is created all the same) *)
+        let st := match lookup k (stacks m) with Some st => st | None => [] end in
+        let v := nvalue s l e in
+        with_mx s (mkMx (vars m) (update k (if existsb (val_eqb v) st then st else st ++ [v]) (stacks m)) (dicts m))
     | Pop v k =>
         let st := match lookup k (stacks m) with Some st => st | None => [] end in
         match rev st with
